@@ -226,17 +226,19 @@ structure PayloadResult where
   open_ : Bool
   actions : List Action
 
+/-- the `switch (ret)` at the end of `ws_get_payload` -/
+def payloadResult (c : Conf) (r : HandleResult) : PayloadResult :=
+  match r.ret with
+  | .ok => { flags := r.flags, open_ := true, actions := r.actions }
+  | .closed => { flags := r.flags, open_ := false, actions := r.actions }
+  | .error => { flags := r.flags, open_ := false, actions := r.actions ++ handleError c closeInternalError }
+
 /-- `ws_get_payload(s, buf, len)` for a delivered payload (`len = s->length`; the `len == 0 &&
-    s->length != 0` end-of-stream case is `eofActions`) -/
+    s->length != 0` end-of-stream case is `eofStep`) -/
 def wsGetPayload (c : Conf) (f : Flags) (key : Bytes) (align : Nat) (buf : Bytes) : PayloadResult :=
   if c.isServer && !f.mask then
     { flags := f, open_ := false, actions := handleError c closeProtocolError }
   else
-    let buf := if f.mask then unmaskPayload c.word align key buf else buf
-    let r := wsHandleFrame c f buf
-    match r.ret with
-    | .ok => { flags := r.flags, open_ := true, actions := r.actions }
-    | .closed => { flags := r.flags, open_ := false, actions := r.actions }
-    | .error => { flags := r.flags, open_ := false, actions := r.actions ++ handleError c closeInternalError }
+    payloadResult c (wsHandleFrame c f (if f.mask then unmaskPayload c.word align key buf else buf))
 
 end Cjet.Ws
